@@ -317,7 +317,7 @@ fn op(max: u32) -> impl Strategy<Value = Op> {
 }
 
 pub fn strategy(wt: u64, tier: Tier) -> impl Strategy<Value = Case> {
-    let (max_n, max_border, max_ops) = tier.pick((1u32 << 18, 10u8, 40usize), (1u32 << 22, 14u8, 200usize));
+    let (max_n, max_border, max_ops) = tier.pick((1u32 << 18, 10u8, 40usize), (1u32 << 20, 12u8, 120usize));
     (
         gens::prog_mix(wt, max_n, max_border),
         proptest::collection::vec(op(max_n), 0..=max_ops),
@@ -339,7 +339,7 @@ pub fn subchecks(tier: Tier) -> Vec<SubCheck> {
     vec![generated(
         "histories_vs_one_shot",
         "(byte program, call history): update / update_by_iter (exact and inexact size_hint) / update_by_byte / += slice / += array of 1,2,7,8,64 / += byte / clone / mid-stream finalize, chunk sizes 0, 1..8, log-uniform, and cuts placed -7..+7 around piece boundaries and elimination points; final finalize*, input_size, hash_buf, hash_stream with generated read sizes equal the one-shot result (and the reference model); every mid-stream finalize equals the one-shot hash of the prefix; clone sources stay untouched; non-trivial = >= 2 update forms and a cut inside a trigger window and >= 1 piece at the selected level; distinct by (program, history)",
-        tier.pick(120_000, 1_200_000),
+        tier.pick(120_000, 800_000),
         move || strategy(wt_seed(), tier),
         eval,
     )]
